@@ -79,3 +79,12 @@ pub open spec fn self_delimited_kind(k: SyntaxKind) -> bool {
         | SyntaxKind::Dict | SyntaxKind::Conditional | SyntaxKind::WhileLoop | SyntaxKind::ForLoop | SyntaxKind::Contextual
         | SyntaxKind::Closure | SyntaxKind::Raw)
 }
+
+/// C09: what `convert_math` must emit for one child of a Math node: whitespace becomes exactly a blank or a mandatory
+/// line break (according to whether it held one), `#` and every other non-expression token are re-emitted as their own text;
+/// expression children yield whatever `convert_expr` returns (one piece each, nothing in between)
+pub open spec fn math_piece_ok(n: &SyntaxNode, d: DocV) -> bool {
+    &&& (n.kind_s() == SyntaxKind::Space ==> d == (if has_newline_s(n.text_s()) { DocV::Hardline } else { sp() }))
+    &&& (n.kind_s() == SyntaxKind::Hash ==> d == txt("#"@))
+    &&& (!ast::expr_kind(n.kind_s()) && n.kind_s() != SyntaxKind::Space && n.kind_s() != SyntaxKind::Hash ==> d == txt(n.text_s()))
+}
